@@ -61,6 +61,44 @@ func classifyPath(sym string) pathClass {
 	return pathClass{kind: "none"}
 }
 
+// symCtx renders a path expression; when it is built from a parameter of fn (a shared helper such as
+// replaceFile(path, data)), the parameter is replaced by the argument of the call site that yields the most
+// dangerous classification, so that helpers are judged by what their callers hand them.
+func (P *Prog) symCtx(fn *ssa.Function, v ssa.Value) string {
+	s := P.sym(v)
+	if classifyPath(s).kind != "none" {
+		return s
+	}
+	rank := map[string]int{"none": 0, "temp": 1, "other": 2, "live": 3}
+	for i, prm := range fn.Params {
+		tok := "param:" + prm.Name()
+		if !strings.Contains(s, tok) {
+			continue
+		}
+		best, bestRank := s, 0
+		for _, ci := range P.callers[fn] {
+			c := ci.Common()
+			var arg ssa.Value
+			if c.IsInvoke() {
+				if i >= 1 && i-1 < len(c.Args) {
+					arg = c.Args[i-1]
+				}
+			} else if i < len(c.Args) {
+				arg = c.Args[i]
+			}
+			if arg == nil {
+				continue
+			}
+			s2 := strings.ReplaceAll(s, tok, P.symCtx(ci.Parent(), arg))
+			if r := rank[classifyPath(s2).kind]; r > bestRank {
+				best, bestRank = s2, r
+			}
+		}
+		return best
+	}
+	return s
+}
+
 func checkC20(R *Run) {
 	P := R.P
 	R.rule("atomic-replace", "for the four durable stores (message board, threaded news, account files, ban list): no call creates, truncates or writes a store's live path in place (os.WriteFile/Create/OpenFile/Truncate, (*os.File).Write on such a file); the live path only appears as destination of os.Rename whose source is a temp path (live path + constant suffix, hence same directory) written by os.WriteFile on the dominating success edge. Enumerated single-step exceptions: os.Remove of an account file in Delete, os.Rename account file → account file in Update")
@@ -80,6 +118,7 @@ func checkC20(R *Run) {
 			continue
 		}
 		hasRename := false
+		symc := func(v ssa.Value) string { return P.symCtx(fn, v) }
 		for _, ci := range callsIn(fn) {
 			c := ci.Common()
 			name := calleeName(c)
@@ -89,7 +128,7 @@ func checkC20(R *Run) {
 				continue
 			}
 			if name == "os.Rename" {
-				src, dst := classifyPath(P.sym(c.Args[0])), classifyPath(P.sym(c.Args[1]))
+				src, dst := classifyPath(symc(c.Args[0])), classifyPath(symc(c.Args[1]))
 				if src.kind == "none" && dst.kind == "none" {
 					continue
 				}
@@ -97,7 +136,7 @@ func checkC20(R *Run) {
 				R.analysed(fname(fn))
 				construct := fmt.Sprintf("%s: os.Rename #%d", fname(fn), nCreateIn(fn, ci))
 				switch {
-				case dst.kind == "live" && src.kind == "temp" && stripRecv(P.sym(c.Args[1])) == src.base:
+				case dst.kind == "live" && src.kind == "temp" && stripRecv(symc(c.Args[1])) == src.base:
 					// the temp must have been fully written on the dominating success edge
 					var wr *ssa.Call
 					for _, cj := range callsIn(fn) {
@@ -129,7 +168,7 @@ func checkC20(R *Run) {
 				}
 				continue
 			}
-			pc := classifyPath(P.sym(c.Args[0]))
+			pc := classifyPath(symc(c.Args[0]))
 			if pc.kind == "none" {
 				continue
 			}
@@ -171,10 +210,10 @@ func checkC20(R *Run) {
 		c := ci.Common()
 		n := calleeName(c)
 		if n == "os.Rename" {
-			return classifyPath(P.sym(c.Args[1])).kind == "live" && classifyPath(P.sym(c.Args[0])).kind == "temp"
+			return classifyPath(P.symCtx(ins.Parent(), c.Args[1])).kind == "live" && classifyPath(P.symCtx(ins.Parent(), c.Args[0])).kind == "temp"
 		}
 		if n == "os.Remove" {
-			return classifyPath(P.sym(c.Args[0])).kind == "live"
+			return classifyPath(P.symCtx(ins.Parent(), c.Args[0])).kind == "live"
 		}
 		for _, cal := range P.callees(ci) {
 			if persisting[cal] {
